@@ -299,3 +299,4 @@ BOUNDS = dict(routines="randn, hutchinson_diag_estimate (both probe kinds), diag
               "NystromPrecond, stochastic_lanczos_quad, randomized_svd, lobpcg, diag / trace with a reused Auto(tol, key) object; keys None / 7 / 123456789; "
               "float replay under three user histories of the global generator", hutchinson="symbolic operators n in {2,3}, all offsets, both probe "
               "distributions, one batch of n probes; iteration caps {1,2,5,17}", state="initial global state arbitrary (free constant), Seed / Adv uninterpreted")
+BOUNDS["added"] = "complex operators (the estimate of a complex diagonal is that diagonal, not its conjugate; complex square root and NumPy's lexicographic complex ordering of the stopping rule are modelled)"
